@@ -88,7 +88,8 @@ class C09(Check):
     RULE = ('(a) the regenerated operation table: every standard and vendor operation x argument shape (incl. junos / sros commit), probed on the '
             'real code with all capabilities and with each asserted capability removed (every row is a case); (b) random subsets of the '
             'relevant server capabilities in both URN forms (incl. the empty list, base-only and module-namespaces-only), with-defaults basic-mode / also-supported variants, x gated calls x profiles, '
-            'executed through the real Manager on a stub session: exception class and silence on the wire compared with the model of the gate. '
+            'executed through the real Manager on a stub session: exception class and silence on the wire compared with the model of the gate; '
+            '(c) the request builders on random ARGUMENT VALUES (datastore names, URLs, option values, texts) x random capability subsets, compared with Model/Builders (outcome, refusal class and missing capability, request bytes). '
             'Non-trivial = a call with at least one documented dependency; distinct by case.')
     TRUST = ['the catalogue of argument shapes in harness/gen/optable.py (which calls are probed)']
 
@@ -102,12 +103,18 @@ class C09(Check):
         rows = getattr(self, '_rows', [])
         out = [{'kind': 'row', 'i': i, 'key': '%s@%s[%s]%s' % (r['op'], r['profile'], r['shape'], r['capsMode'])} for i, r in enumerate(rows)]
         n = 1500 if tier == 'quick' else 40000
-        return out + [gen_case(rng) for _ in range(n)]
+        from cases import builders_gen as BG
+        from props import C07 as P7
+        return out + [gen_case(rng) for _ in range(n)] + [BG.gen(rng, P7.plain_tree) for _ in range(n // 2)]
 
     def search(self, tier, rng, broken):
         return [gen_case(rng) for _ in range(20000)]
 
     def run_impl(self, case):
+        if case.get('kind') == 'build':
+            from cases import builders_gen as BG
+            from props import C07 as P7
+            return BG.run_impl(case, P7.plain_build, P7.plain_from_etree)
         if case['kind'] == 'row':
             r = self._rows[case['i']]
             return {k: r.get(k) for k in ('op', 'profile', 'shape', 'args', 'capsMode', 'outcome', 'nsent', 'asserted', 'probedMinus', 'outsider',
@@ -125,6 +132,9 @@ class C09(Check):
         return {'out': out, 'nsent': len(s.sent)}
 
     def model_lines(self, case):
+        if case.get('kind') == 'build':
+            from cases import builders_gen as BG
+            return [BG.model_line(case)]
         if case['kind'] == 'row':
             return []
         op = CALLS[case['call']][0]
@@ -136,6 +146,9 @@ class C09(Check):
         return lines
 
     def model_obs(self, case, outs):
+        if case.get('kind') == 'build':
+            from cases import builders_gen as BG
+            return BG.model_obs(outs[0])
         if case['kind'] == 'row':
             return None
         res = 'ok'
@@ -147,12 +160,18 @@ class C09(Check):
         return {'out': res, 'nsent': 1 if res == 'ok' else 0}
 
     def compare(self, case, io, mo):
+        if case.get('kind') == 'build':
+            from cases import builders_gen as BG
+            return BG.compare(case, io, mo)
         if mo is None:
             return None
         # junos / sros commit is an override; its gate is the same (candidate, confirmed-commit)
         return None if io == mo else 'impl=%r model=%r' % (io, mo)
 
     def oracle(self, case, io):
+        if case.get('kind') == 'build':
+            from cases import builders_gen as BG
+            return BG.oracle(case, io, 'C09')
         if case['kind'] == 'row':
             v = OS.row_violation(io, ('gating', 'gated-element', 'gating-probe', 'refusal'))
             if v:
@@ -187,6 +206,9 @@ class C09(Check):
         return None
 
     def nontrivial(self, case, io):
+        if case.get('kind') == 'build':
+            from cases import builders_gen as BG
+            return bool(BG.required(case))
         if case['kind'] == 'row':
             return bool(io['asserted'])
         op = CALLS[case['call']][0]
